@@ -603,6 +603,19 @@ def db_cases():
         yield Always([('open', 2)] + seed + [[b'watch', b'k'], [b'multi']] + cmds + [('cmd', 2, [b'select', b'0']), ('cmd', 2, [b'set', b'k', b'dirty']), [b'exec'], [b'get', b'k']] + back())
 
 
+    # MOVE of a key of every type (also the empty string, a key with a deadline, a key that expired) onto a free / an occupied / an expired name
+    makers = [[b'set', b'k', b''], [b'set', b'k', b'0'], [b'rpush', b'k', b''], [b'sadd', b'k', b''], [b'hset', b'k', b'', b''], [b'zadd', b'k', b'0', b''],
+              [b'set', b'k', b'', b'ex', b'100'], [b'setex', b'k', b'100', b'v'], [b'set', b'k', b'gone', b'px', b'10']]
+    targets = [[], [('cmd', 2, [b'set', b'k', b''])], [('cmd', 2, [b'rpush', b'k', b'x'])], [('cmd', 2, [b'set', b'k', b'old', b'px', b'10'])]]
+    for mk in makers:
+        for tg in targets:
+            for wrap in (False, True):
+                body = [[b'move', b'k', b'1'], [b'exists', b'k'], [b'ttl', b'k'], [b'type', b'k'], [b'select', b'1'], [b'type', b'k'], [b'ttl', b'k'], [b'dbsize'],
+                        [b'move', b'k', b'0'], [b'select', b'0'], [b'type', b'k'], [b'pttl', b'k']]
+                yield Always([('open', 2), [b'flushall'], ('cmd', 2, [b'select', b'1'])] + tg + [mk, ('adv', 50)] +
+                             ([[b'multi']] + body + [[b'exec']] if wrap else body) + back())
+
+
 # ------------------------------------------------------------------ pub/sub (C10, C16)
 
 def pubsub_glob_cases():
